@@ -40,6 +40,10 @@ INVALID_TEXTS = [
     "//?: is-ssb-script: true\ndef 0 {\n    a();\n    End();\n}\ndef 1 for thing(2) {\n    leaked_op(1);\n    End();\n}\n",
     "//?: is-ssb-script: true\ndef 0 {\n    @l;\n    a();\n    Move<actor 2>(3, @l);\n}\n",
 ]
+# with-blocks around statements that are not plain operations (the writer of such blocks keeps per-block state)
+CTX_SRC = ("def 0 {\n    with (actor 1) {\n        $A = 1;\n    }\n    x();\n    with (object OBJ_2) {\n        clear $B;\n    }\n"
+           "    if ($C == 1) {\n        with (performer 3) {\n            $C[1] = 1;\n        }\n    }\n    with (actor ACTOR_P) {\n        y(1);\n    }\n    end;\n}\n"
+           "def 1 for actor 2 {\n    with (object 0) {\n        init $D;\n    }\n    with (performer 1) {\n        dungeon_mode(3) = DMODE_OPEN;\n    }\n    hold;\n}\n")
 SWITCH_ONLY_SRC = "def 0 {\n    switch ($A) {\n        case 1:\n            a();\n            break;\n        case 2:\n            b();\n            break;\n    }\n    c();\n    end;\n}\n"
 
 
@@ -142,7 +146,7 @@ def make_pool(pool_seed: int, sizes=("small", "small", "medium", "medium", "larg
                 fam.append(len(docs))
                 docs.append(sib)
         families.append(fam)
-    for src_ in (STRINGY_SRC, SWITCH_ONLY_SRC):
+    for src_ in (STRINGY_SRC, SWITCH_ONLY_SRC, CTX_SRC):
         o = sut.compile_exps(src_)
         if "ok" in o:
             docs.append({"routines": o["ok"]["routines"]})
